@@ -98,6 +98,34 @@ PROPS["C17"] = dict(
     trusted=COMMON_TRUST, excluded=[],
 )
 
+PROPS["C08"] = dict(
+    units=["budget"],
+    title="Retry budget never grants more retries than it was funded",
+    level_text="Deductive proof (Verus atomic invariants): each std atomic of TokenBucketBudget / AimdBudget / AimdController carries the ghost accounting {granted, deposited} and the invariant "
+               "balance + granted x cost <= initial + deposited x amount and balance <= max; every individual atomic step (load, CAS) of the real try_withdraw/deposit bodies re-establishes it in isolation, "
+               "which is a proof for ALL interleavings of those steps and any number of threads; try_withdraw returns true only on the path whose own CAS succeeded (local ghost witness), false without withdrawing.",
+    level_note="Verus atomics are sequentially consistent: the Relaxed orderings are dropped; sound here because every invariant is single-location. CAS-loop termination not proved. max_tokens x 1000 representable; initial <= max. "
+               "AimdBudget::new (float builder chain) is not under contract: its initial state is assumed to satisfy the invariant.",
+    technique="contract-based deductive verification (Verus atomic_ghost invariants on mechanically rewritten std atomics)",
+    design_ref="§6 C08",
+    assumptions=["memory orderings dropped (single-location invariants)", "CAS loops terminate", "initial_tokens <= max_tokens <= 2^48", "AimdBudget::new establishes the invariant"],
+    trusted=COMMON_TRUST, excluded=["termination (lock-freedom) of the CAS loops"],
+)
+PROPS["C13"] = dict(
+    units=["budget", "adaptive"],
+    title="Adaptive limit in bounds, in-flight exact",
+    level_text="Deductive proof (Verus): atomic invariant min <= limit <= max on the AIMD controller and on Vegas, re-established by every atomic store of the real record_success/record_failure/record_successes/reset/adjust_limit bodies "
+               "(all interleavings). Service: obligation ledger on the real call body — the in-flight increment is handed to the RAII guard before the first cancellation point (inner call that may panic, future creation, await), "
+               "the guard's real Drop decrements exactly once, a completed call decrements exactly once; poll_ready returns Pending without touching the inner service when the loaded in-flight count has reached the limit and "
+               "otherwise forwards the inner readiness.",
+    level_note="(current as f64 * factor) as usize <= current is a Kani leaf on the extracted expression (factor in [0,1], current <= 2^53); Vegas' float estimates are unconstrained (the clamp keeps the bounds); "
+               "Rust drop/unwind semantics assumed; max_limit < usize::MAX.",
+    technique="contract-based deductive verification (Verus): atomic invariants + obligation ledger on the extracted call body; Kani float leaf",
+    design_ref="§6 C13",
+    assumptions=["drop on cancellation and unwind (RAII)", "min_limit <= max_limit <= 2^53", "decrease_factor in [0,1]"],
+    trusted=COMMON_TRUST, excluded=["update_rtt (touches only RTT statistics, frame-checked syntactically)"],
+)
+
 NOT_APPLICABLE = {
     "C12": "not built: hedge's body is a tokio::select! loop over spawned tasks; needs the select!/spawn rewrite R17 (DESIGN §7); nothing weaker is claimed in its place",
 }
